@@ -5,8 +5,6 @@ package statedb
 
 import (
 	"context"
-	"maps"
-	"slices"
 	"time"
 
 	"github.com/cilium/statedb/index"
@@ -83,11 +81,13 @@ func graveyardWorker(db *DB, ctx context.Context, gcRateLimitInterval time.Durat
 			continue
 		}
 
-		// Dead objects found, do a write transaction against all tables with dead objects in them.
-		tablesToModify := slices.Collect(maps.Keys(toBeDeleted))
-		wtxn := db.WriteTxn(tablesToModify...)
-		txn := wtxn.unwrap()
+		// Dead objects found, do a write transaction against each table with dead objects in it.
+		// The tables are collected one at a time: a single transaction against all of them would
+		// hold the locks of some tables while waiting for the lock of a busy one, and thereby
+		// block the writers of tables that have nothing in common with the busy one.
 		for meta, deadObjs := range toBeDeleted {
+			wtxn := db.WriteTxn(meta)
+			txn := wtxn.unwrap()
 			tableName := meta.Name()
 			start := time.Now()
 			for _, key := range deadObjs {
@@ -99,9 +99,9 @@ func graveyardWorker(db *DB, ctx context.Context, gcRateLimitInterval time.Durat
 					graveyard.delete(graveyard.objectToKey(oldObj))
 				}
 			}
+			wtxn.Commit()
 			cleaningTimes[tableName] = time.Since(start)
 		}
-		wtxn.Commit()
 
 		for tableName, stat := range cleaningTimes {
 			db.metrics.GraveyardCleaningDuration(
